@@ -1,6 +1,6 @@
 (* C19 — property theorems only. *)
 From Coq Require Import List String ZArith Bool Ascii.
-From C19 Require Import Model Spec Lex LexProofs Proofs Session SessionSpec SessionProofs.
+From C19 Require Import Model Spec Lex LexProofs Proofs Session SessionSpec SessionProofs Classes ClassesProofs.
 Import ListNotations.
 
 (* (1) LOAD FORMS.  For EVERY value of the modelled universe inside the guard -- numbers, strings, characters, symbols,
@@ -108,6 +108,26 @@ Theorem C19_flavor_session_nonvacuous :
   sess_ok_x s = true /\ sess_ok s = false /\ meets_spec s = true /\ List.length (snapshot s) = 5.
 Proof. exact ex_flavor_history_ok. Qed.
 Print Assumptions C19_flavor_session_nonvacuous.
+
+(* (3d) CLASSES in a snapshot. The checker run on the class order of every snapshot is sound, for every hierarchy and
+   every order: an accepted order has every class after every user class it inherits from, no class twice and exactly
+   the user classes. The writer of the model (name order, superclasses first) meets this specification on the
+   enumerated block of 42 hierarchies (every assignment of three names to child(parent) + unrelated, to a chain, to a
+   class with two parents, and of four names to a diamond), evaluated by the kernel. PARTIAL: the full statement -- the
+   writer meets the specification for EVERY acyclic hierarchy -- is evaluated on every generated hierarchy per run
+   (self-check code 3), not proved. *)
+Theorem C19_class_order_checker_sound : forall h order seen, supers_before h seen order = true ->
+  forall l1 c l2, order = l1 ++ c :: l2 ->
+  forall a, In a (ancestors (List.length h) h c) -> In a (map fst h) -> In a (seen ++ l1).
+Proof. exact supers_before_sound. Qed.
+Print Assumptions C19_class_order_checker_sound.
+Theorem C19_class_order_checker_complete_set : forall h order, order_ok h order = true ->
+  NoDup order /\ (forall c, In c order <-> In c (map fst h)).
+Proof. exact order_ok_sound. Qed.
+Print Assumptions C19_class_order_checker_complete_set.
+Theorem C19_class_order_block_partial : List.length block = 42 /\ forallb (fun h => order_ok h (class_order h)) block = true.
+Proof. exact class_order_block. Qed.
+Print Assumptions C19_class_order_block_partial.
 
 (* (4) Outside the guards the faithful model violates the specification: the known finding that has a model. *)
 Theorem C19_rank_zero_refuted : reload (Arr [] [Fix 7] T true) = Err EType /\ loadable (Arr [] [Fix 7] T true) = false.
